@@ -33,7 +33,7 @@ def classify(c):
 def nontrivial(c, obs):
     if not obs or obs[0] != 1:
         return False
-    n = c["nsig"] if c["k"] != "combspec" else len(c["driven"])
+    n = c["nsig"] if c["k"] not in ("combspec", "aliasspec") else len(c["driven"])
     rows = [tuple(obs[1 + i:1 + i + n]) for i in range(0, len(obs) - 1, n)]
     return len(set(rows)) > 1
 
@@ -263,7 +263,24 @@ def gen_cases(tier, seed):
                             "nsig": 5, "rst": 4, "has_sync": False}
                     cases.append(dict(base, k="dsl", shape="ex"))
                     cases.append(dict(base, k="combspec", shape="ex", driven=[2, 3]))
+    # aliased targets (a signal named twice inside one target): specification = addressed bits (what the netlist and
+    # testbench writes do); the simulator's read-modify-write code writes the stale alias back (known finding F9)
+    sh = [[1, False], [2, False], [2, False], [1, False]]        # x | a, b | rst
+    ev2 = [["set", 0, 1], ["set", 0, 0], ["set", 0, 1]]
+    alias_targets = [["sl", ["cat", [["s", 1], ["sl", ["s", 1], 0, 1]]], 0, 1],
+                     ["sl", ["cat", [["sl", ["s", 1], 0, 1], ["s", 1]]], 0, 1],
+                     ["pt", ["cat", [["s", 1], ["s", 2], ["s", 1]]], ["c", 0, 1, False], 1, 1]]
+    for t in alias_targets:
+        base = {"shapes": sh, "inits": [0, 0, 0, 0], "rl": [False] * 4, "prog": [["as", "comb", t, ["s", 0]]],
+                "evs": ev2, "nsig": 4, "rst": 3, "has_sync": False}
+        cases.append(dict(base, k="aliasspec", shape="alias", driven=[1, 2]))
     return cases
+
+
+def known_finding(c, obs, model):
+    if c["k"] == "aliasspec":
+        return "F9-rtl-lhs-alias-rmw"
+    return None
 
 
 def build_module(c):
@@ -312,7 +329,7 @@ def run_impl(c):
         return [-1, sum(map(ord, type(ex).__name__))]
     try:
         out = [1]
-        read = sigs if c["k"] != "combspec" else [sigs[i] for i in c["driven"]]
+        read = sigs if c["k"] not in ("combspec", "aliasspec") else [sigs[i] for i in c["driven"]]
         sim = Simulator(m)
 
         async def tb(ctx):
@@ -347,10 +364,11 @@ def coq_term(c):
         comb = coq_dstmts(project(c["prog"], "comb", shapes), shapes)
         sync = coq_dstmts(project(c["prog"], "sync", shapes), shapes)
         return f"k_dsl {coq_sigs(c)} {comb} {sync} {rst} {coq_events(c['evs'])}"
-    if c["k"] == "combspec":
+    if c["k"] in ("combspec", "aliasspec"):
         comb = coq_dstmts(project(c["prog"], "comb", shapes), shapes)
         drv = "[" + "; ".join(f"{i}%nat" for i in c["driven"]) + "]"
-        return f"k_comb_spec {coq_sigs(c)} {comb} {drv} {coq_events(c['evs'])}"
+        fn = "k_comb_spec" if c["k"] == "combspec" else "k_comb_spec_alias"
+        return f"{fn} {coq_sigs(c)} {comb} {drv} {coq_events(c['evs'])}"
     if c["k"] == "stmts":
         # statements as lowered by the REAL Module, serialised from the elaborated fragment
         import astser
